@@ -335,7 +335,8 @@ def _cancel_worklist_design(c: Ctx, u: Unit, g, self_: str) -> bool:
     return True
 
 
-@ob('C10.4', 'SHAPE/DOM', 'event_cancel_pending_child_processing visits every child, cancels only results still pending, and recurses into every child')
+@ob('C10.4', 'SHAPE/DOM', 'event_cancel_pending_child_processing visits every child, cancels only results still pending, and reaches the descendants at every depth (by recursing into '
+    'every child, or with an explicit worklist onto which every child that has results is put)')
 def c10_4(c: Ctx) -> None:
     u = c.unit(MOD, 'BaseEvent.event_cancel_pending_child_processing')
     g = c.cfg(u)
